@@ -355,8 +355,11 @@ def run(ctx: Ctx):
     # ---- S5 one code path -------------------------------------------------------------------------------
     full = pkg.func(f"{MOD}::{CLS}.calc_full_log_probs")
     rets = [st for st, _ in ReachingDefs(full.node).return_envs]
-    ok5 = len(rets) == 1 and isinstance(rets[0].value, ast.Call) and u(rets[0].value.func) == "self.calc_full_log_probs_chunked" \
-        and [u(a) for a in rets[0].value.args] == ["hist", "prev", "1"]
+    chf = pkg.func(f"{MOD}::{CLS}.calc_full_log_probs_chunked")
+    ok5 = False
+    if len(rets) == 1 and isinstance(rets[0].value, ast.Call) and u(rets[0].value.func) == "self.calc_full_log_probs_chunked":
+        b5 = bind_args(rets[0].value, chf, True)  # positional or by keyword
+        ok5 = [u(b5.arg_for(p_.name)) if b5.arg_for(p_.name) is not None else None for p_ in chf.params[1:4]] == ["hist", "prev", "1"]
     col.ob("G16", "S5", f"{W('calc_full_log_probs')}::=chunked(hist, prev, 1)", ok5,
            "calc_full_log_probs is not calc_full_log_probs_chunked(hist, prev, 1): 'all at once' and 'in chunks' "
            "would be different code", rel, full.line, sample=u(rets[0].value) if rets else None)
@@ -418,8 +421,18 @@ def _strided_windows(ctx: Ctx, rel: str):
     v = views[0]
     recv = u(v.func.value)
 
+    # the time cursor: the variable of `for t in range(Nm1, T + 1, chunk)` or of the equivalent `t = Nm1; while t < T + 1: ...; t += chunk`
+    while_cursors = set()
+    for w_ in own_nodes(f.node):
+        if isinstance(w_, ast.While):
+            tested = {x.id for x in ast.walk(w_.test) if isinstance(x, ast.Name)}
+            stepped = {x.target.id for x in ast.walk(w_) if isinstance(x, ast.AugAssign) and isinstance(x.target, ast.Name)}
+            while_cursors |= tested & stepped
+
     def leaf_of_def(d):
         if d.kind == "for":
+            return "t"
+        if d.kind in ("assign", "aug") and d.name in while_cursors:
             return "t"
         if d.kind == "param" and d.name == f.params[-1].name:
             return "C"
@@ -629,8 +642,20 @@ def _arpa_base_conversion(ctx: Ctx):
     if not flag:
         raise AnalysisError("C06: parse_arpa_lm lost its to_base_e option")
 
+    pm_arpa = parent_map(f.node)
+
     def from_flag(e):
-        return "to_base_e" in rd.derives(e).params() or any(isinstance(x, ast.Name) and x.id == "to_base_e" for x in ast.walk(e))
+        if "to_base_e" in rd.derives(e).params() or any(isinstance(x, ast.Name) and x.id == "to_base_e" for x in ast.walk(e)):
+            return True
+        # chosen by a branch on the flag (`if to_base_e: norm = ... else: norm = ...`)
+        from sa.astutil import guards_of as _go
+        for x in ast.walk(e):
+            if isinstance(x, ast.Name) and isinstance(x.ctx, ast.Load):
+                for d in rd.defs_of(x):
+                    st_ = getattr(d, "stmt", None)
+                    if st_ is not None and any(any(isinstance(y, ast.Name) and y.id == "to_base_e" for y in ast.walk(t)) for t, _ in _go(pm_arpa, st_)):
+                        return True
+        return False
 
     def zero(e):
         return (isinstance(e, ast.Constant) and e.value == 0) or (isinstance(e, ast.Call) and len(e.args) == 1 and not e.keywords
